@@ -269,6 +269,12 @@ func corpus(out *cq.Out) {
 	runCase(out, 1, []label{{kind: "start", c: d}, {kind: "addpart", c: d, pid: 101, pname: "p1"}, feed(d, 0, 100, 103, ins(1, 102), dp(2, 103)), feed(d, 1, 300, 303, ins(3, 302)),
 		feed(d, 1, 303, 305, dp(4, 304)), feed(d, 0, 103, 106, dc(5, 105)), feed(d, 1, 305, 308, ins(6, 306), dc(7, 308))},
 		"corpus: partition and collection dropped on two shards")
+	// a collection stopped and started again on the same manager (pause / resume of its task while another task keeps the
+	// manager alive), its partition registered again, then dropped on both shards: one drop request
+	runCase(out, 1, []label{{kind: "start", c: d}, {kind: "addpart", c: d, pid: 101, pname: "p1"}, feed(d, 0, 100, 103, ins(1, 102)),
+		{kind: "stop", c: d}, {kind: "start", c: d}, {kind: "addpart", c: d, pid: 101, pname: "p1"},
+		feed(d, 0, 103, 106, dp(2, 105)), feed(d, 1, 300, 303, ins(3, 302)), feed(d, 1, 303, 305, dp(4, 304))},
+		"corpus: stop, start again, partition registered again and dropped")
 	// an insert into a partition the downstream never learns: the refresh fails, the pack is an error, the process survives
 	e := &coll{id: 1, tid: 9001, name: "c1", src: [][2]string{{"src-dml_0_1v0", "src-dml_0"}}, tgt: [][2]string{{"tgt-dml_0_9001v0", "tgt-dml_0"}},
 		parts: map[string]int64{"_default": 900100}}
